@@ -108,3 +108,16 @@ func (r *ResponseFilterWriter) Write(b []byte) (int, error) {
 	}
 	return r.ResponseWriter.Write(b)
 }
+
+// Flush implements http.Flusher. Flushing commits the headers, so the
+// decision whether to compress has to be made first.
+func (r *ResponseFilterWriter) Flush() {
+	if !r.statusCodeWritten {
+		r.WriteHeader(http.StatusOK)
+	}
+	if r.shouldCompress {
+		r.gzipResponseWriter.Flush()
+		return
+	}
+	r.ResponseWriterWrapper.Flush()
+}
